@@ -140,6 +140,21 @@ pub fn exits_must_succeed(sim: &mut Sim, rng: &mut Rng, idx: usize, out: &mut Ve
     let mut c = child_of(sim);
     c.stats.check("c09_exit_fork");
     let holders_of = |c: &Sim, tok: Tok| -> Vec<(String, u128)> { c.obs.t(tok).map(|t| t.bal.iter().filter(|(a, b)| (a.starts_with("user") || a.as_str() == INTRUDER) && **b > 0).map(|(a, b)| (a.clone(), *b)).collect()).unwrap_or_default() };
+    // state predicate used to key the known finding F-e: a pool whose backing was slashed to
+    // zero while its tokens / requests still exist is priced at the definitional rate 1
+    let zero_backing = |c: &Sim| -> bool {
+        let h = match c.obs.hub.as_ref() {
+            Some(h) => h,
+            None => return false,
+        };
+        let st = match h.state.as_ref() {
+            Some(s) => s,
+            None => return false,
+        };
+        let sb = c.obs.t(Tok::B).map(|t| t.supply).unwrap_or(0) + h.batch.requested_bsei_with_fee.u128();
+        let ss = c.obs.t(Tok::St).map(|t| t.supply).unwrap_or(0) + h.batch.requested_stsei.u128();
+        (st.total_bond_bsei_amount.is_zero() && sb > 0) || (st.total_bond_stsei_amount.is_zero() && ss > 0)
+    };
     let unbond_round = |c: &mut Sim, rng: &mut Rng, out: &mut Vec<Violation>, allow_full: bool, label: &str| -> usize {
         let mut n = 0;
         for tok in [Tok::B, Tok::St] {
@@ -150,9 +165,11 @@ pub fn exits_must_succeed(sim: &mut Sim, rng: &mut Rng, idx: usize, out: &mut Ve
                     2 => (b / 2).max(1),
                     _ => rng.range128(1, b),
                 };
+                let zb = zero_backing(c);
                 let o = c.apply(&tx_step(Op::Send { tok, from: u.clone(), to: HUB.into(), amount: amt.into(), hook: Hook::Unbond })).unwrap();
                 if !o.ok {
-                    viol(out, "C09", "holder_can_always_unbond", idx, "hub.unbond:must_succeed", format!("{}: {} could not unbond {} of its {} {:?}: {}", label, u, amt, b, tok, o.err.unwrap_or_default()));
+                    let sig = if zb { "hub.unbond:must_succeed:zero_backing_pool" } else { "hub.unbond:must_succeed" };
+                    viol(out, "C09", "holder_can_always_unbond", idx, sig, format!("{}: {} could not unbond {} of its {} {:?}: {}", label, u, amt, b, tok, o.err.unwrap_or_default()));
                 } else {
                     n += 1;
                 }
@@ -209,9 +226,11 @@ pub fn exits_must_succeed(sim: &mut Sim, rng: &mut Rng, idx: usize, out: &mut Ve
     let mut closed2 = false;
     'outer: for tok in [Tok::St, Tok::B] {
         for (u, _) in holders_of(&c, tok) {
+            let zb = zero_backing(&c);
             let o = c.apply(&tx_step(Op::Send { tok, from: u.clone(), to: HUB.into(), amount: 1u128.into(), hook: Hook::Unbond })).unwrap();
             if !o.ok {
-                viol(out, "C09", "holder_can_always_unbond", idx, "hub.unbond:must_succeed_after_epoch", format!("{} could not unbond 1 {:?} after the epoch: {}", u, tok, o.err.unwrap_or_default()));
+                let sig = if zb { "hub.unbond:must_succeed:zero_backing_pool" } else { "hub.unbond:must_succeed_after_epoch" };
+                viol(out, "C09", "holder_can_always_unbond", idx, sig, format!("{} could not unbond 1 {:?} after the epoch: {}", u, tok, o.err.unwrap_or_default()));
             } else {
                 closed2 = true;
                 if hist_len(&c) != h1 + 1 {
